@@ -74,7 +74,8 @@ REAL = ['asyncssh connection/kex/kex_dh/kex_rsa/public_key code of both '
 STUB = ['event loop + clock', 'TCP', 'executor', 'OS randomness',
         'on-path handshake editor (independent cleartext codec)']
 PROBES = ['edit_applied', 'edit_flip', 'edit_version', 'edit_list',
-          'edit_follows', 'edit_hostkey', 'no_common_alg',
+          'edit_follows', 'edit_hostkey', 'edit_version_tail',
+          'no_common_alg',
           'hostkey_alg_checked',
           'handshake_ok', 'downgrade_attempt_effective', 'kex_gex',
           'kex_rsa', 'kex_hybrid']
@@ -113,8 +114,12 @@ def gen_plan(rng):
         edit.update(dir=rng.choice(['c2s', 's2c']), msg=rng.below(4),
                     pos=rng.below(1 << 16), bit=rng.below(8))
     elif ek == 'version':
+        # a bit flip inside the string, or an edit of its tail: white space
+        # put in front of CR LF, the CR replaced or doubled
         edit.update(dir=rng.choice(['c2s', 's2c']), pos=rng.below(1 << 16),
-                    bit=rng.below(7))
+                    bit=rng.below(7),
+                    tail=rng.choice([None, None, 'space', 'tab', 'cr_to_space',
+                                     'cr_to_tab', 'double_cr', 'two_spaces']))
     elif ek == 'list':
         edit.update(dir=rng.choice(['c2s', 's2c']), field=rng.choice(LISTS),
                     op=rng.choice(['delete_first', 'delete_chosen',
@@ -210,6 +215,19 @@ class EditWire(Observer):
 
         # version line
         if index == 0:
+            if kind == 'version' and e['dir'] == dirname and e.get('tail') \
+                    and data.endswith(b'\r\n'):
+                body = data[:-2]
+                new = {'space': body + b' \r\n', 'tab': body + b'\t\r\n',
+                       'two_spaces': body + b'  \r\n',
+                       'cr_to_space': body + b' \n',
+                       'cr_to_tab': body + b'\t\n',
+                       'double_cr': body + b'\r\r\n'}[e['tail']]
+                self.applied = True
+                self.detail = ('version-tail', dirname, e['tail'])
+                pipe.push(DATA, new)
+                return
+
             if kind == 'version' and e['dir'] == dirname:
                 body = data.rstrip(b'\r\n')
                 tail = data[len(body):]
@@ -542,6 +560,9 @@ def run_plan(plan, sched_seed=None, sched_replay=None):
     if applied:
         sim.probes['edit_applied'] += 1
         sim.probes['edit_' + edit['kind']] += 1
+
+        if w.detail and w.detail[0] == 'version-tail':
+            sim.probes['edit_version_tail'] += 1
 
         if established or server_authed:
             world.violation(
